@@ -816,6 +816,46 @@ fn gt_item(rep: &mut Report, rng: &mut Rng, args: &Args, g: &dyn GAd) {
             }
         }
     }
+    // containers: validation of a Vec / array goes through batch_check; two invalid elements whose product is 1
+    // (t and 1/t for a t outside the r-torsion) must still be rejected, two valid ones accepted
+    {
+        let mut q = UInt::one();
+        for _ in 0..fi.dim {
+            q *= &fi.p;
+        }
+        for k in 0..bud(args, 2, 12) {
+            let t: Vec<Vec<u64>> = (0..fi.dim).map(|_| fi.to_mont(&rand_below(rng, &fi.p))).collect();
+            if t.iter().all(|l| oracle::from_limbs(l).is_zero()) {
+                continue;
+            }
+            let tinv = g.pow(&t, &(&q - UInt::from(2u8)));
+            let good = g.pow(&t, &cof);
+            let good2 = g.pow(&good, &UInt::from(7u8));
+            let t_is_torsion = g.pow(&t, g.r()) == one_raw;
+            for (pair, valid, what) in [((&t, &tinv), t_is_torsion, "t and 1/t outside the r-torsion"), ((&good, &good2), true, "two r-torsion elements")] {
+                let (Ok(b0), Ok(b1)) = (g.ser(pair.0, Compress::Yes), g.ser(pair.1, Compress::Yes)) else { continue };
+                for kind in [0u8, 1] {
+                    let bytes: Vec<u8> = if kind == 0 { [2u64.to_le_bytes().to_vec(), b0.bytes.clone(), b1.bytes.clone()].concat() } else { [b0.bytes.clone(), b1.bytes.clone()].concat() };
+                    for val in [Validate::Yes, Validate::No] {
+                        rep.eval(digest(&(g.name(), "gt-container", k, kind, val == Validate::Yes, valid)), true);
+                        rep.class(if valid { "pairing outputs in a container: all valid" } else { "pairing outputs in a container: invalid elements whose product is 1" });
+                        let must_accept = valid || val == Validate::No;
+                        let det = || json!({"engine": g.name(), "container": if kind == 0 { "Vec" } else { "array" }, "validate": val == Validate::Yes, "elements": what});
+                        match g.deser_container(&bytes, kind, Compress::Yes, val) {
+                            Err(p) => {
+                                if !p.in_harness() {
+                                    rep.violation(format!("{dp}/container/panic"), json!({"engine": g.name(), "panic": p.to_json()}));
+                                }
+                            },
+                            Ok(Ok(_)) if !must_accept => rep.violation(format!("{dp}/container/validate/accepts-non-r-torsion"), det()),
+                            Ok(Err(e)) if must_accept => rep.violation(format!("{dp}/container/rejects-valid"), { let mut d = det(); d["error"] = json!(e); d }),
+                            _ => {},
+                        }
+                    }
+                }
+            }
+        }
+    }
     // hostile bytes: truncation, integers >= p, uniform
     let base = enc::field(&fi, &(0..fi.dim).map(|_| rand_below(rng, &fi.p)).collect::<Vec<_>>(), 0, 0);
     let mut cases: Vec<(Vec<u8>, bool)> = vec![];
